@@ -43,7 +43,7 @@ theorem pendOkW_append_close {P : List Pend} {ns na : Nat} {rel : List Nat} {nex
   have hslot : slotOf p = none := by
     unfold slotOf
     rcases hk with ⟨f, hk1, _⟩ | ⟨hk1, _⟩ <;> rw [hk1]
-  refine ⟨?_, ?_, ?_, ?_, ?_⟩
+  refine ⟨?_, ?_, ?_, ?_, ?_, h.relLe⟩
   · rw [List.map_append, List.nodup_append]
     refine ⟨h.tags, by simp, ?_⟩
     intro a ha b hb hab
@@ -78,7 +78,7 @@ theorem pendOkW_append_close {P : List Pend} {ns na : Nat} {rel : List Nat} {nex
 
 theorem pendOkW_counters {P : List Pend} {ns na : Nat} {rel : List Nat} {next : Nat} (h : PendOkW P ns na rel next)
     {ns' na' : Nat} (h1 : ns ≤ ns') (h2 : na ≤ na') : PendOkW P ns' na' rel next := by
-  refine ⟨h.tags, h.slots, ?_, h.minted, h.sids⟩
+  refine ⟨h.tags, h.slots, ?_, h.minted, h.sids, fun k hk => Nat.le_trans (h.relLe k hk) h1⟩
   intro p hp
   have := h.shape p hp
   cases hk : p.kind with
@@ -201,6 +201,8 @@ theorem sim_delete {cfg : Cfg} {d d' : RState} {m : Mon} {o : Obs} (hs : Sim cfg
         · exact chkLog_nil _ _ _
         · simp [chkNoId, hreq]
         · rfl
+        · intro h hh; cases hh
+        · rfl
         · rfl
         · exact hcnt _
         · exact hop
@@ -275,6 +277,8 @@ theorem sim_delete {cfg : Cfg} {d d' : RState} {m : Mon} {o : Obs} (hs : Sim cfg
           exact chkAnswer_admitted hs _ _ (by simp) hi hname hl _ (by simp) (by simp) (by simp [St.accepted2xx])
         · exact chkLog_nil _ _ _
         · simp [chkNoId, hreq]
+        · rfl
+        · intro h hh; cases hh
         · rfl
         · rfl
         · exact hcnt _
